@@ -63,14 +63,25 @@ def parsePairs (s : String) : Option (List (Nat × Nat)) :=
 
 def parseNats (s : String) : Option (List Nat) := (splitNonEmpty s ",").mapM String.toNat?
 
+/-- one character per repair (`1` = applied), in the order of the fields of `Fixes`; repairs not
+mentioned are applied -/
 def parseFixes (s : String) : Option Fixes :=
-  match s.toList with
-  | [a, b, c, d] => some ⟨a == '1', b == '1', c == '1', d == '1'⟩
-  | _ => none
+  let l := s.toList
+  if l.length < 4 ∨ l.length > 9 ∨ !(l.all fun c => c == '0' || c == '1') then none
+  else
+    let g (i : Nat) : Bool := (l.getD i '1') == '1'
+    some { maxFrame := g 0, streamInflow := g 1, prioIds := g 2, hdrPrio := g 3, readCredit := g 4,
+           dataCredit := g 5, trailerFrame := g 6, trailerNoBody := g 7, mcsWake := g 8 }
+
+def parseOptNat (s : String) : Option (Option Nat) :=
+  if s == "-" then some none else s.toNat?.map some
 
 def parseOp (s : String) : Option Op :=
   match s.splitOn ":" with
   | ["o", h, b, k] => do pure (.openStream (← h.toNat?) (← b.toNat?) (k == "1"))
+  | ["oq", h, b, k, hd, tr] => do
+    pure (.openReq { hdrLen := ← h.toNat?, bodyLen := ← b.toNat?, known := k == "1", head := hd == "1",
+                     trailer := ← parseOptNat tr })
   | ["f", id, n] => do pure (.feed (← id.toNat?) (← n.toNat?))
   | ["w", id] => do pure (.write (← id.toNat?))
   | ["c", id] => do pure (.cancel (← id.toNat?))
@@ -82,6 +93,10 @@ def parseOp (s : String) : Option Op :=
   | ["pr", id, code] => do pure (.peer (.rst (← id.toNat?) (← code.toNat?)))
   | ["pg", last] => do pure (.peer (.goaway (← last.toNat?)))
   | ["ph", id, e] => do pure (.peer (.headers (← id.toNat?) (e == "1")))
+  | ["ph", id, e, status, cl] => do
+    pure (.peer (.resp (← id.toNat?) (e == "1") (← status.toNat?) (← parseOptNat cl)))
+  | ["pp", ack, d] => do pure (.peer (.ping (ack == "1") (← d.toNat?)))
+  | ["pu", id, promised] => do pure (.peer (.pushPromise (← id.toNat?) (← promised.toNat?)))
   | ["pd", id, len, pad, e] => do
     pure (.peer (.data (← id.toNat?) (← len.toNat?) (← pad.toNat?) (e == "1")))
   | _ => none
@@ -99,6 +114,7 @@ def showFrame : Frame → String
   | .continuation id len h => s!"C{id}:{len}:{flag h "h"}"
   | .data id len e => s!"D{id}:{len}:{flag e "e"}"
   | .rst id => s!"R{id}"
+  | .ping ack d => (if ack then "Y" else "Z") ++ toString d
 
 def frameStream : Frame → Nat
   | .settings _ => 0
@@ -109,6 +125,7 @@ def frameStream : Frame → Nat
   | .continuation id _ _ => id
   | .data id _ _ => id
   | .rst id => id
+  | .ping _ _ => 0
 
 /-- stable insertion by stream id: frames of one stream keep their order; the order between
 streams is not compared (different goroutines write them) -/
@@ -161,6 +178,8 @@ def parseFrame (s : String) : Option Frame :=
     | [id, len, fl] => do pure (.data (← id.toNat?) (← len.toNat?) (parseBoolFlag fl 'e'))
     | _ => none
   | 'R' :: rest => do pure (.rst (← (String.ofList rest).toNat?))
+  | 'Y' :: rest => do pure (.ping true (← (String.ofList rest).toNat?))
+  | 'Z' :: rest => do pure (.ping false (← (String.ofList rest).toNat?))
   | _ => none
 
 def parseEvent (s : String) : Option Event :=
@@ -171,9 +190,15 @@ def parseEvent (s : String) : Option Event :=
     | _ => none
   | _ => (parseFrame s).map Event.c
 
+/-- the events of a recorded history; a GOAWAY written by the client (`G`, seen only when the
+flush of a later RST_STREAM carries it out before the socket is closed) is always legal and not
+a frame of the model: dropped -/
+def historyEvents (events : String) : Option (List Event) :=
+  ((splitNonEmpty events ";").filter (· != "G")).mapM parseEvent
+
 def laneMonitor : List String → String
   | [consumed, events] =>
-    match (splitNonEmpty events ";").mapM parseEvent with
+    match historyEvents events with
     | some evs => if consumed == "1" then Monitor.verdictConsumed evs else Monitor.verdict evs
     | none => "bad-op"
   | _ => "bad-op"
@@ -181,7 +206,7 @@ def laneMonitor : List String → String
 /-- the race-tolerant reading (classification of the known finding `c06-settings-ack-race`) -/
 def laneMonitorTolerant : List String → String
   | [consumed, events] =>
-    match (splitNonEmpty events ";").mapM parseEvent with
+    match historyEvents events with
     | some evs => Monitor.verdictTolerant evs (consumed == "1")
     | none => "bad-op"
   | _ => "bad-op"
